@@ -356,3 +356,7 @@ CONTRACTS[G2 + "grid_2d_slim_via_mask_from"].gen = _g_via_mask
 # point decides): not a valid way to make inputs for these two
 for _k in ("grid_pixel_centres_2d_slim_from", "grid_pixel_indexes_2d_slim_from"):
     CONTRACTS[G + _k].no_int_twin = True
+
+
+# pixel coordinates are index-valued data (rows of an index array, possibly of an unsigned dtype): scalar-type twins of engine C
+CONTRACTS[G + "scaled_coordinates_2d_from"].unsigned_twin = ("pixel_coordinates_2d",)
